@@ -3,6 +3,7 @@ import NomtModel.Store.ImgCheck
 import NomtModel.Store.ImgMerkle
 import NomtModel.Store.Placement
 import NomtModel.Store.TraceOrder
+import NomtModel.Store.SyncGenRecProof
 /-!
 Driver mode `image` (C16 / C19): every stdin line `check <dir> <expected-file>` makes the driver read
 the files of the nomt directory `<dir>` itself, decode them with the Lean decoders of
@@ -117,6 +118,32 @@ def checkOccupied (o : String) (occ : Option ByteArray) : String :=
     else if reported == full then o ++ s!" occupied={reported.getD 0}"
     else s!"bad occupancy: hash_table_utilization().occupied = {reported} but the table holds {full} full buckets"
 
+def renderLine (l : IoEv2) : String :=
+  s!"{if l.isBegin then "Begin" else "End"} {l.ev.kind} {l.ev.file} {l.ev.offset} {l.ev.len} {l.ev.site} {l.thread}"
+
+def b01 (b : Bool) : Nat := if b then 1 else 0
+
+/-- C04: is the recorded trace of an operation a run of the sync choreography (`Store/SyncGen.lean`) instantiated with the
+trace's own page lists?  `ok <stats>` / `bad <why>`; an operation that issued nothing is trivially one. -/
+def memberReport (tr : List IoEv2) : Except String String :=
+  if tr.isEmpty then .ok "member=0 member_trivial=1" else
+  let P := SyncGen.paramsOf tr
+  let stats := s!"member=1 mem_rollback_append={b01 P.seg.isSome} mem_rollover={b01 ((P.seg.map (·.create)).getD false)} mem_no_rollback_append={b01 P.seg.isNone} mem_tree_ops={P.bt.length} mem_tree_grows={(P.bt.filter (·.grow)).length} mem_ht_writes={P.ht.length} mem_no_ht_writes={b01 P.ht.isEmpty} mem_prune_unlinks={P.prune.unlinks.length} mem_prune_any={b01 (!P.prune.unlinks.isEmpty || P.prune.tail.isSome)} mem_prune_truncate_head={b01 P.prune.tail.isSome} mem_wal_written=1"
+  if !P.wfB then .error s!"order: choreography: a rollback segment carries the name of a store file (params {repr P})" else
+  match SyncGen.member SyncGen.real P tr with
+  | .ok => .ok stats
+  | .cut => .error s!"order: choreography: the trace ends although tasks of the sync program (Store/SyncGen.lean) are unfinished — the model claims lines the code did not issue (params {repr P})"
+  | .bad k => .error s!"order: choreography: line {k} `{match tr[k]? with | some l => renderLine l | none => "?"}` is not a step the sync program (Store/SyncGen.lean) can take at this point: the real order violates a happens-before edge of the model, or issues an action the model does not have"
+
+/-- C03: is the recorded trace of a recovery the trace of the recovery choreography (`Store/SyncGenRec.lean`)? -/
+def recMemberReport (tr : List IoEv2) : Except String String :=
+  let R := SyncGen.recParamsOf tr
+  let stats := s!"rec_member=1 rec_redo={b01 (match R.wal with | .redo _ => true | _ => false)} rec_stale_wal={b01 (R.wal == .stale)} rec_no_wal={b01 (R.wal == .absent)} rec_unlinks={R.unlinks.length} rec_truncate_head={b01 R.head.isSome}"
+  if !R.wfB then .error s!"member: recovery choreography: the head segment carries the name of a store file" else
+  match SyncGen.firstDiff tr (SyncGen.recLines {} R) 0 with
+  | none => .ok stats
+  | some k => .error s!"member: recovery choreography: line {k} `{match tr[k]? with | some l => renderLine l | none => "<end of trace>"}` differs from the recovery program (Store/SyncGenRec.lean), which has `{match (SyncGen.recLines {} R)[k]? with | some l => renderLine l | none => "<end>"}` there"
+
 def imageLine (line : String) : IO String := do
   match fields line with
   | ["check", dir, expf] =>
@@ -148,7 +175,10 @@ def imageLine (line : String) : IO String := do
           match checkOrder (parseIoTrace2 t) with
           | .error e => pure s!"bad {e}"
           | .ok o =>
-            pure s!"ok pre_meta_events={st.preMetaEvents} ln_writes={st.lnWrites} bbn_writes={st.bbnWrites} to_free_pages={st.toFreePages} beyond_frontier={st.beyondFrontier} meta_write_seen={st.sawMeta} order_effects={o.effects} order_fsyncs={o.fsyncs} durable_at_switch={o.durableAtSwitch} overlapped={o.overlapped} ht_writes={o.htWrites} post_prunes={o.postPrunes} left_volatile={o.pend.length} switch_durable={if o.phase == 2 then 1 else 0}"
+            match memberReport (parseIoTrace2 t) with
+            | .error e => pure s!"bad {e}"
+            | .ok mem =>
+            pure s!"ok pre_meta_events={st.preMetaEvents} ln_writes={st.lnWrites} bbn_writes={st.bbnWrites} to_free_pages={st.toFreePages} beyond_frontier={st.beyondFrontier} meta_write_seen={st.sawMeta} order_effects={o.effects} order_fsyncs={o.fsyncs} durable_at_switch={o.durableAtSwitch} overlapped={o.overlapped} ht_writes={o.htWrites} post_prunes={o.postPrunes} left_volatile={o.pend.length} switch_durable={if o.phase == 2 then 1 else 0} {mem}"
         | .error e => pure s!"bad placement: {e}"
   -- C04 / C03: `recovery <trace-file>` — the Begin / End events `Nomt::open` issued while recovering a crashed directory
   | ["recovery", f] =>
@@ -158,7 +188,11 @@ def imageLine (line : String) : IO String := do
     | some t =>
       match checkRecoveryOrder (parseIoTrace2 t) with
       | .error e => pure s!"bad {e}"
-      | .ok o => pure s!"ok recovery_effects={o.effects} recovery_fsyncs={o.fsyncs} redone_ht_writes={o.htWrites} recovery_unlinks={o.postPrunes} recovery_left_volatile={o.pend.length}"
+      | .ok o =>
+        match recMemberReport (parseIoTrace2 t) with
+        | .error e => pure s!"bad {e}"
+        | .ok mem =>
+        pure s!"ok recovery_effects={o.effects} recovery_fsyncs={o.fsyncs} redone_ht_writes={o.htWrites} recovery_unlinks={o.postPrunes} recovery_left_volatile={o.pend.length} {mem}"
   | _ => pure "bad unknown command"
 
 partial def imageLoop (h out : IO.FS.Stream) : IO Unit := do
